@@ -97,7 +97,8 @@ class Cancelled(BaseException):
 # user class factory
 # ---------------------------------------------------------------------------
 
-VARIANTS = ["plain", "slots", "frozen", "dataclass", "dataclass-frozen", "own-dunders", "inherited-dunders", "value-eq"]
+VARIANTS = ["plain", "slots", "frozen", "dataclass", "dataclass-frozen", "own-dunders", "inherited-dunders", "value-eq",
+            "falsy"]
 
 
 def make_class(name, variant, rec):
@@ -190,6 +191,10 @@ def make_class(name, variant, rec):
             note_init(self, kw)
             for k, v in kw.items():
                 setattr(self, k, v)
+        if variant == "falsy":
+            # a container-like class whose instances are false in a boolean context (an empty collection): a model
+            # object is an object, whatever bool() says about it
+            ns["__len__"] = lambda self: 0
         if variant == "value-eq":
             # value semantics: all instances compare equal (a model may legitimately hold several equal objects);
             # whatever textX does with a model object has to go by identity
@@ -663,7 +668,7 @@ def draw_cfg(t, prop, nfiles):
         # _tx_parser/_tx_filename cannot be stored); C33 keeps to classes that
         # accept attributes, because the position of an object that rejects
         # them is lost (that is C06's domain, not claimed)
-        open_variants = ["plain", "own-dunders", "inherited-dunders"]
+        open_variants = ["plain", "own-dunders", "inherited-dunders", "falsy", "value-eq"]
         # Import objects get `_tx_loaded_models` from the ImportURI providers and a Wrap gets its `inner` re-assigned
         # when a processor replaces the Inner: both need classes that accept attribute assignment after construction
         classes = [(n, t.pick(open_variants if (n in ("Model", "Import", "Wrap") or prop == "C33") else VARIANTS,
